@@ -144,6 +144,10 @@ def checkRig (prop : String) (input : Json) (impl : Json) : PropOut := Id.run do
       notes := notes ++ ["d:kind-" ++ (kind.splitOn ":").headD kind, "d:expect-" ++ want.1]
       let encodedPath := ((jstrD rq "path").splitOn "?").headD "" |>.any (· = '%')
       let emptyHeader := r.headers.any fun (_, v) => v.isEmpty
+      -- C12-F4: fiber ends a `:name` at `-` (and `.`), so a template variable with a hyphen is another route there
+      let hyphenVar := match findRoute routes r with
+        | some (sr, _) => (templateSegs sr.ctrlPath sr.r.path).any fun t => isVar t && (varName t).any (fun c => c = '-' || c = '.')
+        | none => false
       let mut views : List (String × (String × List String)) := []
       for (e, rs) in engines do
         let rl := (rs.getArr?.toOption.getD #[]).toList
@@ -164,7 +168,8 @@ def checkRig (prop : String) (input : Json) (impl : Json) : PropOut := Id.run do
             -- chi / echo (when the encoding is not the canonical one)
             let fid := if encodedPath && cls = "binding" && (e = "fiber" || e = "chi" || e = "echo") && got.1 = want.1 then "C12-F1:"
               -- C12-F3: fiber reads an empty header value as "no header"
-              else if e = "fiber" && emptyHeader then "C12-F3:" else ""
+              else if e = "fiber" && emptyHeader then "C12-F3:"
+              else if e = "fiber" && hyphenVar then "C12-F4:" else ""
             let relevant : Bool := match prop with
               | "C02" => cls == "served"
               | "C03" => cls == "auth"
@@ -178,7 +183,8 @@ def checkRig (prop : String) (input : Json) (impl : Json) : PropOut := Id.run do
         if distinct.length > 1 then
           let onlyEnc := encodedPath && (distinct.map (·.1)).eraseDups.length = 1
           let onlyFiberEmpty := emptyHeader && ((views.filter (·.1 ≠ "fiber")).map (·.2)).eraseDups.length = 1
-          fails := fails ++ [(if onlyEnc then "C12-F1:" else if onlyFiberEmpty then "C12-F3:" else "") ++ s!"engines-disagree:{kind}:{jstrD rq "method"} {jstrD rq "path"}:{views.map fun (e, v) => e ++ "=" ++ v.1}"]
+          let onlyFiberHyphen := hyphenVar && ((views.filter (·.1 ≠ "fiber")).map (·.2)).eraseDups.length = 1
+          fails := fails ++ [(if onlyEnc then "C12-F1:" else if onlyFiberEmpty then "C12-F3:" else if onlyFiberHyphen then "C12-F4:" else "") ++ s!"engines-disagree:{kind}:{jstrD rq "method"} {jstrD rq "path"}:{views.map fun (e, v) => e ++ "=" ++ v.1}"]
       wants := wants ++ [(toString id, outcomeJson want)]
       gots := gots ++ [(toString id, Json.mkObj (views.map fun (e, v) => (e, outcomeJson v)))]
     let fails' := fails.eraseDups
